@@ -31,6 +31,11 @@
 //! [v4/24, v4/24 of a second subnet] (address-table scans that stop early or depend on the order
 //! show up there); the second subnet's broadcast address is a source and a destination class.
 //!
+//! Timed part (addr/timed.rs): an address obtained by SLAAC counts as "own" only between the
+//! router advertisement and the end of its valid lifetime; the application event loop polls at the
+//! instants `poll_at()` returns; probes before/after are judged by R1 against a validity
+//! computed from the advertisements, not from `iface.ip_addrs()`.
+//!
 //! Lenient readings (the statement leaves room; the oracle demands no more than is written):
 //!  * an 802.15.4 data frame without any destination addressing is, per IEEE 802.15.4, for the
 //!    coordinator of its SOURCE PAN: with a foreign source PAN it is "for another PAN" (R1); with
@@ -60,8 +65,10 @@
 //!  * The property quantifies over valid packets of supported protocols: unknown IP protocols,
 //!    extension headers, fragments are not part of this table.
 
+#[macro_use]
 mod model;
 mod pkt;
+mod timed;
 mod world;
 
 use crate::core::*;
@@ -1213,10 +1220,13 @@ pub fn run(tier: Tier) -> i32 {
         }
     }
 
+    // timed part: SLAAC address validity over time (see addr/timed.rs)
+    let tt = timed::run(&mut rep, tier);
+
     rep.add_count("states", agg.distinct.len() as u64);
-    rep.add_count("transitions", agg.frames_in);
-    rep.add_count("evaluations", agg.cells);
-    rep.add_count("traces_validated_against_impl", agg.validated);
+    rep.add_count("transitions", agg.frames_in + tt.frames_in);
+    rep.add_count("evaluations", agg.cells + tt.runs);
+    rep.add_count("traces_validated_against_impl", agg.validated + tt.validated);
     rep.add_count("distinct_nontrivial", agg.obs_distinct.len() as u64);
     rep.cov("cells_executed", json!(agg.cells));
     rep.cov("cells_per_medium_version", json!(agg.per_med));
@@ -1243,6 +1253,9 @@ pub fn run(tier: Tier) -> i32 {
 // ---------------------------------------------------------------------------------------
 
 pub fn replay(art: &Value) -> i32 {
+    if art["replay"]["type"].as_str() == Some("slaac") {
+        return timed::replay(&art["replay"], art["signature"].as_str().unwrap_or(""));
+    }
     let Some(c) = art["replay"].get("cell").and_then(Cell::from_json) else {
         eprintln!("MACHINERY ERROR: artefact has no replayable cell");
         return 2;
